@@ -276,7 +276,8 @@ def generate(rng, tier):
         op = rng.choice(["fftn", "rfftn"])
         nv = rng.choice([1, 1, 2, 3, 3, 4])
         m = gen_mesh(rng, tier, cap=cap // (1 if nv < 3 else 2))
-        cases.append(dict(kind="fwd", op=op, mesh=m, nv=nv, values=gen_values_spec(rng, real=False)))
+        cases.append(dict(kind="fwd", op=op, mesh=m, nv=nv,
+                          values=gen_values_spec(rng, real=(op == "rfftn" and rng.random() < 0.85))))
     for _ in range(90 if q else 700):
         op = rng.choice(["ifftn", "irfftn", "irfftn"])
         nv = rng.choice([1, 1, 2, 3])
@@ -410,6 +411,8 @@ def run_case(c):
     rec = dict(kind=kind, case=c, oracle=[], tags=[], coq=None)
     rec = globals()["run_" + kind](c, rec)
     rec["oracle"] = sorted(set(rec["oracle"]))
+    if rec.get("coq") is None:
+        rec.pop("coq", None)     # oracle-only case (the driver sizes records by len(coq))
     return rec
 
 
